@@ -536,7 +536,7 @@ pub fn check(tier: Tier) -> i32 {
             eligible.push(st);
         }
     }
-    let stride: usize = std::env::var("PDLMC_C07_STRIDE").ok().and_then(|s| s.parse().ok()).unwrap_or(if thorough { 3 } else { 5 });
+    let stride: usize = std::env::var("PDLMC_C07_STRIDE").ok().and_then(|s| s.parse().ok()).unwrap_or(if thorough { 6 } else { 5 });
     let limit: usize = std::env::var("PDLMC_LIMIT").ok().and_then(|s| s.parse().ok()).unwrap_or(usize::MAX);
     let chosen: Vec<&Selected> = eligible.iter().copied().step_by(stride.max(1)).take(limit).collect();
     eprintln!("C07: {} rust states, {} in the intersection, {} chosen ({:.1}s)", h.states.len(), eligible.len(), chosen.len(), ev.start.elapsed().as_secs_f64());
